@@ -881,9 +881,13 @@ def _ldap(ctx):
                     len(sub.args) == 2 and N.txt(sub.args[1]) == 'list':
                 tests['list'].add(N.txt(sub.args[0]))
             if isinstance(sub, ast.Compare) and len(sub.ops) == 1 and \
-                    isinstance(sub.ops[0], (ast.Is, ast.Eq)) and \
-                    N.txt(sub.comparators[0]) in ('bool', 'dict'):
-                tests[N.txt(sub.comparators[0])].add(N.txt(sub.left))
+                    isinstance(sub.ops[0], (ast.Is, ast.Eq, ast.IsNot,
+                                            ast.NotEq)):
+                sides = [N.txt(sub.left), N.txt(sub.comparators[0])]
+                for kind in ('bool', 'dict'):
+                    if kind in sides:
+                        other = sides[1 - sides.index(kind)]
+                        tests[kind].add(other)
         common = tests['list'] & tests['bool'] & tests['dict']
         conv[name] = {kind: bool(common) for kind in tests}
     ctx.ob('C15.5', mod.functions['_dict_2_entry'], None,
